@@ -36,12 +36,58 @@ func c08fail(tc, law, typ, detail string) {
 
 func c08stat(tc, name string, n int) { c08line("STAT", tc, name, fmt.Sprint(n)) }
 
-func c08begin(tc, typ string) { c08line("BEGIN", tc, typ) }
+var c08cur struct {
+	sync.Mutex
+	tc, typ string
+	start   float64
+	open    bool
+}
+
+func c08cpu() float64 {
+	var ru syscall.Rusage
+	if syscall.Getrusage(syscall.RUSAGE_SELF, &ru) != nil {
+		return 0
+	}
+	return float64(ru.Utime.Sec) + float64(ru.Utime.Usec)/1e6 + float64(ru.Stime.Sec) + float64(ru.Stime.Usec)/1e6
+}
+
+// c08watch: CPU-time backstop (not wall clock). A derivation whose laws normally cost milliseconds
+// and that burns more than the budget is reported as non-terminating; the process exits so that
+// the worker can rerun the remaining derivations.
+func c08watch(budget float64) {
+	for {
+		time.Sleep(200 * time.Millisecond)
+		c08cur.Lock()
+		open, tc, typ, start := c08cur.open, c08cur.tc, c08cur.typ, c08cur.start
+		c08cur.Unlock()
+		if open && c08cpu()-start > budget {
+			c08line("FAIL", tc, "nontermination", typ, fmt.Sprintf("the laws of this instance burnt more than %.0f CPU-seconds without finishing", budget))
+			c08line("ABORT", tc, typ)
+			os.Exit(3)
+		}
+	}
+}
+
+func c08begin(tc, typ string) bool {
+	for _, s := range strings.Split(os.Getenv("C08_SKIP"), ";") {
+		if s == tc+":"+typ {
+			return false
+		}
+	}
+	c08line("BEGIN", tc, typ)
+	c08cur.Lock()
+	c08cur.tc, c08cur.typ, c08cur.start, c08cur.open = tc, typ, c08cpu(), true
+	c08cur.Unlock()
+	return true
+}
 
 func c08end(tc, typ string) {
 	if r := recover(); r != nil {
 		c08fail(tc, "panic", typ, fmt.Sprint(r))
 	}
+	c08cur.Lock()
+	c08cur.open = false
+	c08cur.Unlock()
 	c08line("END", tc, typ)
 }
 
@@ -53,6 +99,11 @@ func TestMain(m *testing.M) {
 			c08out = f
 		}
 	}
+	budget := 40.0
+	if v, err := strconv.ParseFloat(os.Getenv("C08_CPU_BUDGET"), 64); err == nil && v > 0 {
+		budget = v
+	}
+	go c08watch(budget)
 	code := m.Run()
 	c08line("DONE")
 	os.Exit(code)
@@ -329,27 +380,69 @@ func runHash[T any](typ string, inst fp.Hashable[T], again fp.Hashable[T], pool 
 	c08stat("Hashable", "equal_not_identical_pairs", eqp)
 }
 
-func runOrd[T any](typ string, inst fp.Ord[T], pool []T, varied []int, classes []string, lt func(a, b T) bool) {
+// c08tick arms the logical clock of the package's counting Ord instances around a group of calls.
+type c08tick struct {
+	ticks, budget *int64
+	per           int64
+	total         int64
+	max           int64
+}
+
+func (t *c08tick) call(f func()) (exceeded bool) {
+	if t == nil {
+		f()
+		return false
+	}
+	*t.ticks, *t.budget = 0, t.per
+	defer func() {
+		*t.budget = 0
+		t.total += *t.ticks
+		if *t.ticks > t.max {
+			t.max = *t.ticks
+		}
+		if r := recover(); r != nil {
+			if strings.HasSuffix(fmt.Sprintf("%T", r), "XOrdBudgetExceeded") {
+				exceeded = true
+				return
+			}
+			panic(r)
+		}
+	}()
+	f()
+	return false
+}
+
+func runOrd[T any](typ string, inst fp.Ord[T], pool []T, varied []int, classes []string, lt func(a, b T) bool, tk *c08tick) {
 	pairs, triples := 0, 0
+	defer func() {
+		if tk != nil {
+			c08stat("Ord", "counted_component_comparisons", int(tk.total))
+			c08line("MAX", "Ord", "component_comparisons_per_pair", fmt.Sprint(tk.max))
+		}
+	}()
 	for i, a := range pool {
 		for j, b := range pool {
 			pairs++
-			got, want := inst.Less(a, b), lt(a, b)
+			want := lt(a, b)
+			var got, gba, ge bool
+			var c int
+			if tk.call(func() { got, gba, ge, c = inst.Less(a, b), inst.Less(b, a), inst.Eqv(a, b), inst.Compare(a, b) }) {
+				c08fail("Ord", "nontermination", typ, fmt.Sprintf("Less/Less/Eqv/Compare on one pair of values with %d fields made more than %d component comparisons (logical budget) for a=%+v b=%+v", len(classes), tk.per, a, b))
+				return
+			}
 			cl := c08class(varied, classes, i, j)
 			if got != want {
 				c08fail("Ord", "lexicographic/"+cl, typ, fmt.Sprintf("Less=%v, lexicographic order of the fields=%v for a=%+v b=%+v", got, want, a, b))
 			}
-			gba := inst.Less(b, a)
 			n := 0
-			for _, x := range []bool{got, gba, inst.Eqv(a, b)} {
+			for _, x := range []bool{got, gba, ge} {
 				if x {
 					n++
 				}
 			}
 			if n != 1 {
-				c08fail("Ord", "trichotomy/"+cl, typ, fmt.Sprintf("Less(a,b)=%v Less(b,a)=%v Eqv(a,b)=%v for a=%+v b=%+v", got, gba, inst.Eqv(a, b), a, b))
+				c08fail("Ord", "trichotomy/"+cl, typ, fmt.Sprintf("Less(a,b)=%v Less(b,a)=%v Eqv(a,b)=%v for a=%+v b=%+v", got, gba, ge, a, b))
 			}
-			c := inst.Compare(a, b)
 			if (c < 0) != got || (c > 0) != gba {
 				c08fail("Ord", "compare/"+cl, typ, fmt.Sprintf("Compare=%d but Less(a,b)=%v Less(b,a)=%v for a=%+v b=%+v", c, got, gba, a, b))
 			}
@@ -422,11 +515,15 @@ func c08mem(v reflect.Value, out map[uintptr]string, depth int) {
 		if _, ok := out[p]; ok {
 			return
 		}
-		out[p] = "pointer " + v.Type().String()
+		out[p] = "pointer|pointer " + v.Type().String()
 		c08mem(v.Elem(), out, depth+1)
 	case reflect.Slice:
 		if v.Cap() > 0 {
-			out[v.Pointer()] = "backing array of " + v.Type().String()
+			k := "slice"
+			if v.Type().Elem().Kind() == reflect.Uint8 {
+				k = "bytes"
+			}
+			out[v.Pointer()] = k + "|backing array of " + v.Type().String()
 		}
 		for i := 0; i < v.Len(); i++ {
 			c08mem(v.Index(i), out, depth+1)
@@ -435,7 +532,7 @@ func c08mem(v reflect.Value, out map[uintptr]string, depth int) {
 		if v.IsNil() {
 			return
 		}
-		out[v.Pointer()] = "map " + v.Type().String()
+		out[v.Pointer()] = "map|map " + v.Type().String()
 		it := v.MapRange()
 		for it.Next() {
 			c08mem(it.Key(), out, depth+1)
@@ -475,7 +572,8 @@ func runClone[T any](typ string, inst fp.Clone[T], pool []T, classes []string, i
 			}
 			for p, what := range am {
 				if _, shared := cm[p]; shared {
-					c08fail("Clone", "shared-storage/"+class, typ, fmt.Sprintf("clone and original share the %s (original %+v)", what, a))
+					kd := strings.SplitN(what, "|", 2)
+					c08fail("Clone", "shared-storage/"+kd[0], typ, fmt.Sprintf("clone and original share the %s reached through a field of class %s (original %+v)", kd[1], class, a))
 					return
 				}
 			}
